@@ -19,7 +19,7 @@ import (
 
 func init() {
 	vRegister("vC33_dedup", vC33_dedup)
-	vRegister("vC33_relocator4", vC33_relocator4)
+	vRegister("vC33_relocator6", vC33_relocator6)
 	vRegister("vC33_relocator5", vC33_relocator5)
 	vRegister("vC33_share", vC33_share)
 	vRegister("vC33_batches", vC33_batches)
@@ -120,7 +120,7 @@ func vC33_sprintf(format string, args ...any) string {
 	return "?"
 }
 
-func vC33_relocator4() { vC33_relocatorRun(4) }
+func vC33_relocator6() { vC33_relocatorRun(6) }
 func vC33_relocator5() { vC33_relocatorRun(5) }
 
 func vC33_relocatorRun(K int) {
@@ -132,12 +132,12 @@ func vC33_relocatorRun(K int) {
 	vC33_aborts = 0
 
 	// reference bookkeeping, by job (= index of the node-left event that registered it)
-	var states [5]*internalpb.PeerState
-	var jobAddr [5]int
-	var queued [5]bool  // Rebalance(job) sits in the relocator's mailbox
-	var wstate [5]int   // worker of the job: 0 none, 1 relocating, 2 completed (Terminated not yet handled), 3 died (Terminated not yet handled), 4 gone
-	var wname [5]string // name of the job's worker
-	var aborted [5]bool
+	var states [6]*internalpb.PeerState
+	var jobAddr [6]int
+	var queued [6]bool  // Rebalance(job) sits in the relocator's mailbox
+	var wstate [6]int   // worker of the job: 0 none, 1 relocating, 2 completed (Terminated not yet handled), 3 died (Terminated not yet handled), 4 gone
+	var wname [6]string // name of the job's worker
+	var aborted [6]bool
 	active := [2]int{-1, -1} // job in flight per address
 	const (
 		evNodeLeft = iota
@@ -149,7 +149,7 @@ func vC33_relocatorRun(K int) {
 	for k := 0; k < K; k++ {
 		ev := vChoose("event", 5)
 		a := vChoose("addr", 2)
-		sel := vChoose("job", 5)
+		sel := vChoose("job", 6)
 		vC33_spawnFail = vNondetBool("spawnFails")
 		vAssume(sel < K)
 		before := vC33_aborts
